@@ -22,6 +22,20 @@ Fixpoint in_ranges (c : N) (rs : list (N * N)) : bool :=
 Definition cls_ok (neg : bool) (rs : list (N * N)) (c : N) : bool :=
   if neg then negb (in_ranges c rs) else in_ranges c rs.
 
+(* bounded greedy repetition of a body matcher mr: try one more iteration first (it must consume
+   something), fall back to the continuation when at least lo iterations have been made *)
+Fixpoint rep_with (mr : list N -> (list N -> option (list N)) -> option (list N))
+         (k : list N -> option (list N)) (lo hi : nat) (s : list N) {struct hi} : option (list N) :=
+  match hi with
+  | O => match lo with O => k s | S _ => None end
+  | S hi' =>
+      match mr s (fun s' => if Nat.ltb (length s') (length s)
+                            then rep_with mr k (Nat.pred lo) hi' s' else None) with
+      | Some x => Some x
+      | None => match lo with O => k s | S _ => None end
+      end
+  end.
+
 (* m r s k : try to match r at the front of s, then hand the rest to k; first success wins *)
 Fixpoint m (r : re) (s : list N) (k : list N -> option (list N)) {struct r} : option (list N) :=
   match r with
@@ -31,17 +45,7 @@ Fixpoint m (r : re) (s : list N) (k : list N -> option (list N)) {struct r} : op
   | RAny => match s with x :: s' => if N.eqb x LF then None else k s' | [] => None end
   | RSeq a b => m a s (fun s' => m b s' k)
   | RAlt a b => match m a s k with Some x => Some x | None => m b s k end
-  | RRep r' lo hi =>
-      (fix rep (lo hi : nat) (s : list N) {struct hi} : option (list N) :=
-         match hi with
-         | O => match lo with O => k s | S _ => None end
-         | S hi' =>
-             match m r' s (fun s' => if Nat.ltb (length s') (length s)
-                                     then rep (Nat.pred lo) hi' s' else None) with
-             | Some x => Some x
-             | None => match lo with O => k s | S _ => None end
-             end
-         end) lo hi s
+  | RRep r' lo hi => rep_with (m r') k lo hi s
   end.
 
 Definition k_any (s : list N) : option (list N) := Some s.
